@@ -297,3 +297,91 @@ def mp_in_out(m):
     vin = dict(afi_safi=afisafi, nlri=routes_in, **nhv)
     vout = dict(afi_safi=afisafi, nlri=routes_out, **nhv)
     return 14, vin, vout
+
+
+# ----------------------------------------------------------------------------- construct-only families (C08)
+def _sid(f):
+    return {'label': f[0], 'TC': f[1], 'S': f[2], 'TTL': f[3]}
+
+
+def sr_segment(sg):
+    t = sg[0]
+    if t == 1:
+        return {'1': _sid(sg[1:5])}
+    if t == 3:
+        v = {'node': ip4(sg[1:5])}
+        if len(sg) > 5:
+            v['SID'] = _sid(sg[5:9])
+        return {'3': v}
+    if t == 5:
+        v = {'interface': sg[1] * 65536 + sg[2], 'node': ip4(sg[3:7])}
+        if len(sg) > 7:
+            v['SID'] = _sid(sg[7:11])
+        return {'5': v}
+    v = {'local': ip4(sg[1:5]), 'remote': ip4(sg[5:9])}
+    if len(sg) > 9:
+        v['SID'] = _sid(sg[9:13])
+    return {'6': v}
+
+
+def sr_policy(p):
+    """abstract SR policy -> the dictionary TunnelEncaps.construct documents ('0' first: it selects the code points)"""
+    new = p['enc'] == 'new'
+    d = {'0': p['enc']}
+    if p['pref']:
+        d['12' if new else '6'] = u32(p['pref'])
+    if p['bsid']:
+        d['13' if new else '7'] = p['bsid'][0]
+    if p['enlp']:
+        d['14'] = p['enlp'][0]
+    if p['prio']:
+        d['15'] = p['prio'][0]
+    if p['name']:
+        d['129'] = bytes(p['name']).decode('ascii')
+    if p['rep']:
+        asn, af, addr = p['rep']
+        d['6'] = {'asn': u32(asn), 'afi': 'ipv4' if af == 1 else 'ipv6', 'address': ip_any(bytes(addr))}
+    lists = []
+    for sl in p['lists']:
+        x = {}
+        if sl['w']:
+            x['9'] = u32(sl['w'])
+        x['1'] = [sr_segment(sg) for sg in sl['segs']]
+        lists.append(x)
+    d['128'] = lists
+    return d
+
+
+def fs6_rule(rule):
+    out = {}
+    for c in rule:
+        t, payload = c[0], c[1]
+        if t in (1, 2):
+            l, off, a = payload
+            out[t] = {'prefix': '%s/%d' % (ip_any(bytes(a)), l), 'offset': off}
+        else:
+            out[t] = '|'.join(o['op'] + str(int.from_bytes(bytes(o['v']), 'big')) for o in payload)
+    return out
+
+
+def enc_input(v):
+    """-> the `attr` dictionary for Update.construct (plus nlri list) for a vector of kind enc"""
+    u, sub = v['u'], v['sub']
+    base = {1: 0, 2: [(2, [65001])], 3: '10.0.0.1'}
+    if sub == 'srpol':
+        base[23] = sr_policy(u)
+        return base, ['192.168.7.0/24']
+    if sub == 'pmsi':
+        val = {'mpls_label': [u['label']], 'tunnel_type': u['ttype'], 'leaf_info_required': u['leaf'],
+               'tunnel_id': ip_any(bytes(u['id'])) if u['id'] else None}
+        base[22] = val
+        return base, ['192.168.7.0/24']
+    base = {1: 0, 2: [(2, [65001])]}
+    if sub == 'srte':
+        val = {'afi_safi': (u['afi'], 73), 'nexthop': ip_any(bytes(u['nh'])) if u['nh'] else '',
+               'nlri': {'distinguisher': u32(u['dist']), 'color': u32(u['color']), 'endpoint': ip_any(bytes(u['ep']))}}
+        base[14] = val
+        return base, []
+    val = {'afi_safi': (2, 133), 'nexthop': ip_any(bytes(u['nh'])) if u['nh'] else '', 'nlri': [fs6_rule(r) for r in u['rules']]}
+    base[14] = val
+    return base, []
